@@ -202,6 +202,8 @@ inductive SqlE where
   | not (e : SqlE)
   | isNull (e : SqlE)
   | notNull (e : SqlE)
+  /-- `l IS r` / `l IS NOT r` with a right operand that is not the bare NULL -/
+  | is (neg : Bool) (l r : SqlE)
   | between (x lo hi : SqlE)
   | fn1 (name : List Char) (a : SqlE)
   | fn2 (name : List Char) (a b : SqlE)
@@ -231,6 +233,11 @@ def sopOf : STok → Option SOp
   | .word ['A', 'N', 'D'] => some .and | .word ['O', 'R'] => some .or | .word ['R', 'E', 'G', 'E', 'X', 'P'] => some .regexp
   | _ => none
 
+
+def mkIs (neg : Bool) (l r : SqlE) : SqlE :=
+  match r with
+  | .null => if neg then .notNull l else .isNull l
+  | r => .is neg l r
 
 def colOfWord (w : List Char) : Option Nat :=
   match w with
@@ -281,10 +288,17 @@ def pLoop : Nat → Nat → SqlE → List STok → Option (SqlE × List STok)
   | 0, _, _, _ => none
   | f + 1, minP, lhs, ts =>
     match ts with
-    | .word ['I', 'S'] :: .word ['N', 'U', 'L', 'L'] :: rest =>
-      if minP ≤ precEqGroup then pLoop f minP (.isNull lhs) rest else some (lhs, ts)
-    | .word ['I', 'S'] :: .word ['N', 'O', 'T'] :: .word ['N', 'U', 'L', 'L'] :: rest =>
-      if minP ≤ precEqGroup then pLoop f minP (.notNull lhs) rest else some (lhs, ts)
+    | .word ['I', 'S'] :: .word ['N', 'O', 'T'] :: rest =>
+      -- `IS NOT` is a binary operator on the level of `=`; `x IS NOT NULL` is the special case
+      if minP ≤ precEqGroup then do
+        let (rhs, r) ← pExpr f (precEqGroup + 1) rest
+        pLoop f minP (mkIs true lhs rhs) r
+      else some (lhs, ts)
+    | .word ['I', 'S'] :: rest =>
+      if minP ≤ precEqGroup then do
+        let (rhs, r) ← pExpr f (precEqGroup + 1) rest
+        pLoop f minP (mkIs false lhs rhs) r
+      else some (lhs, ts)
     | .word ['B', 'E', 'T', 'W', 'E', 'E', 'N'] :: rest =>
       if minP ≤ precEqGroup then do
         let (lo, r) ← pExpr f (precEqGroup + 1) rest
@@ -370,6 +384,11 @@ def evalS (ρ : SEnv) : SqlE → Option SVal
   | .not e => do pure (sNot (← evalS ρ e))
   | .isNull e => do pure (sIsNull (← evalS ρ e))
   | .notNull e => do pure (sNot (sIsNull (← evalS ρ e)))
+  | .is neg l r => do
+    let a ← evalS ρ l
+    let b ← evalS ρ r
+    let same := if a.isNull || b.isNull then sBool (a.isNull && b.isNull) else sCmp .eq a b
+    pure (if neg then sNot same else same)
   | .between x lo hi => do
     let vx ← evalS ρ x
     pure (sAnd (sCmp .ge vx (← evalS ρ lo)) (sCmp .le vx (← evalS ρ hi)))
